@@ -160,7 +160,8 @@ func (n *minNode) Next() (bool, error) {
 						case float64:
 							res = res.SetFloat64(v)
 						default:
-							return nil
+							// no value (null): it takes no part, the result so far stands
+							return value
 						}
 						if value == nil || res.Cmp(value) < 0 {
 							return res
